@@ -3,12 +3,12 @@ CONSTANTS
   MaxPO = 2
   MaxPK = 2
   MaxKO = 2
-  FixPO = 1
-  MaxPos = 5
-  Extra = 1
-  MaxKw = 2
+  FixPO = 9
+  MaxPos = 6
+  Extra = 2
+  MaxKw = 1
   NSim = 0
-  KindMode = "uni"
+  KindMode = "pat"
   Dump = TRUE
 INVARIANT RefIsDeclarative
 INVARIANT ImplAgrees
